@@ -141,7 +141,7 @@ class Gen:
 
     def block(self, depth, env, in_loop):
         r = self.rng
-        n = r.range(0, 5 if depth < 2 else 4)
+        n = r.range(2, 6) if depth == 0 else r.range(0, 5 if depth < 2 else 4)
         body = []
         ndef = 0
         for _ in range(n):
@@ -188,6 +188,53 @@ class Gen:
     def func(self):
         self.ch = self.rng.below(20)
         return self.block(0, [], False)
+
+
+def systematic():
+    """Every nesting path of length 1..3 over {named block, plain block, while, loop, if-then, if-else}
+    x every jump kind at the innermost point, with a defer before and after the nested construct at
+    every level (the function body included): the 'jump out of loops nested inside blocks that have
+    their own defers' family, enumerated completely."""
+    import itertools
+    ctxs = ["Kn", "K", "Lw", "Ll", "It", "Ie"]
+    out = []
+    for depth in (1, 2, 3):
+        for path in itertools.product(ctxs, repeat=depth):
+            in_loop = any(c[0] == "L" for c in path)
+            named = [i + 1 for i, c in enumerate(path) if c == "Kn"]
+            jumps = [("B", None), ("R",), ("T",)]
+            if in_loop:
+                jumps.append(("C", None))
+            if named:
+                jumps.append(("B", named[0]))      # outermost named block
+            for j in jumps:
+                ch = [ord("a")]
+
+                def nxt():
+                    ch[0] += 1
+                    return ch[0] - 1
+
+                def build(i):
+                    if i == len(path):
+                        inner = [("D", nxt()), ("I", [j], []), ("D", nxt()), ("P", nxt())]
+                        return inner
+                    c = path[i]
+                    sub = build(i + 1)
+                    if c == "Kn":
+                        node = ("K", i + 1, sub)
+                    elif c == "K":
+                        node = ("K", None, sub)
+                    elif c == "Lw":
+                        node = ("L", None, True, sub)
+                    elif c == "Ll":
+                        node = ("L", None, False, sub + [("B", None)])
+                    elif c == "It":
+                        node = ("I", sub, [])
+                    else:
+                        node = ("I", [("P", nxt())], sub)
+                    return [("D", nxt()), node, ("D", nxt()), ("P", nxt())]
+                out.append(build(0))
+    return out
 
 
 def features(body, acc=None, depth=0):
@@ -273,6 +320,11 @@ def run(tier, seed):
         cases = []            # (body, [oracle bits])
         for body, ors in corpus():
             cases.append(([to_tuple(s) for s in body], list(ors)))
+        sysf = systematic()
+        sys_or = ["1" * 14, "-", "10" * 7, "01" * 7, "110" * 4, "1011" * 3]
+        for body in sysf:
+            cases.append((body, list(sys_or)))
+        v.coverage["systematic_path_functions"] = len(sysf)
         ncorpus = len(cases)
         for _ in range(nfun):
             cases.append((g.func(), oracles_for(org, nor)))
@@ -311,16 +363,43 @@ def run(tier, seed):
                 part = funcs[i:i + per]
                 batches.append((capy, i // per, [b for b, _ in part], [[bits for bits, _ in kp] for _, kp in part]))
             results = C.parallel_map(run_batch, batches)
+            # a batch that does not build is split into single-function programs so that the
+            # offending function is isolated and the other 49 are still checked
+            if any(r.get("build_failed") for r in results):
+                # rebuild: singles for functions of failed batches, keep the results of good batches
+                batches2, results2, funcs3 = [], [], []
+                for (capy_, bi, bodies, ors), res in zip(batches, results):
+                    part = funcs[bi * per:(bi + 1) * per]
+                    if res.get("build_failed") and len(part) > 1:
+                        singles = [(capy, 0, [b], [[bits for bits, _ in kp]]) for b, kp in part]
+                        sres = C.parallel_map(run_batch, singles)
+                        for (b, kp), sb, sr in zip(part, singles, sres):
+                            batches2.append(sb)
+                            results2.append(sr)
+                            funcs3.append([(b, kp)])
+                    else:
+                        batches2.append((capy_, bi, bodies, ors))
+                        results2.append(res)
+                        funcs3.append(part)
+                batches, results, parts = batches2, results2, funcs3
+            else:
+                parts = [funcs[bi * per:(bi + 1) * per] for (_, bi, _, _) in batches]
             ncase = 0
             d_faith = d_fixed = 0
             first_faith = first_fixed = None
             nontriv = set()
             hist = {"depth": {}, "kinds": {}, "classes": {}, "outcomes": {"ok": 0, "spec_mismatch": 0}}
-            for (capy_, bi, bodies, ors), res in zip(batches, results):
-                part = funcs[bi * per:(bi + 1) * per]
+            for (capy_, bi, bodies, ors), res, part in zip(batches, results, parts):
                 if res.get("build_failed"):
-                    fl.broken.append({"what": "capy rejected or crashed on a generated batch that the model accepts",
-                                      "rc": res["rc"], "output": res["output"][-1500:], "source": res["source"][:6000]})
+                    out = res["output"]
+                    v.failing("accepted-function-rejected:" + ("compiler-panic" if "panicked" in out else "diagnostics"),
+                              {"key": "build:" + C.sha(res["source"]), "stream": "end-to-end",
+                               "program_tokens": " ".join(toks(bodies[0])) if len(bodies) == 1 else None,
+                               "source": res["source"][:8000], "rc": res["rc"], "output": out[-2500:],
+                               "explanation": "the lowering model accepts this function (no label error) but capy "
+                                              "does not build it"})
+                    fl.broken.append({"what": "capy rejected or crashed on a generated function that the model accepts",
+                                      "rc": res["rc"], "output": out[-800:]})
                     continue
                 lines = res["lines"]
                 li = 0
